@@ -78,7 +78,7 @@ def gen(seed, idx, tier):
         p = r.randrange(3)
         if k < 0.70:
             ch = "u" if r.random() < 0.85 else "m"
-            n = 1 if r.random() < 0.6 else r.randint(2, 20)
+            n = 1 if r.random() < 0.6 else r.randint(2, 20) if r.random() < 0.93 else r.choice([64, 65, 70])
             entries = [rand_entry(r, p) for _ in range(n)]
             if r.random() < 0.2 and n > 1:
                 # repeat an entry: second Subscribe for the same subscription in one message
@@ -96,6 +96,10 @@ def gen(seed, idx, tier):
                 b.sd(p, ch, entries, sess=[True, sid], e2=[rand_entry(r, p) for _ in range(r.randint(1, 3))])
             else:
                 b.sd(p, ch, entries, sess=[True, sid])
+            if r.random() < 0.12:
+                # a second SD endpoint on the peer's host asks in the same collection window: each gets its own answers
+                b.ops[-1]["port"] = 40001
+                b.ops[-1].pop("sess", None)
         elif k < 0.73:
             # a FindService answer is pending for this peer when the instance stops (its collector is flushed); what the
             # peer subscribes to afterwards must still be answered
